@@ -520,6 +520,18 @@ theorem grammar_advances_cover_cursor (n : Nat) (f : Fn) (s : PS) :
     advsL s.out + ((run n f s).pos - s.pos) ≤ advsL (run n f s).out :=
   (run_inv n f s).adv
 
+/-- **Exactly one `Advance` per token, as long as the end of the input is not reached**: for every grammar function,
+token list, fuel level and budget, if the cursor is still inside the input afterwards, the number of `Advance` events
+produced equals the number of tokens the cursor moved over. The qualification is necessary and mirrors the Rust:
+`advance()` at the real end (`Input::skip` is a no-op there) still pushes an `Advance`, which `build_tree` ignores
+(`if let Some(token) = tokens.get(cursor)`); see the example below. -/
+theorem grammar_advances_exact (n : Nat) (f : Fn) (s : PS) (h : (run n f s).isEof = false) :
+    advsL (run n f s).out = advsL s.out + ((run n f s).pos - s.pos) :=
+  (run_inv n f s).exact h
+
+/-- `if 1 { }` (4 tokens): the missing `else` is reported by `advance_with_error` at the real end — 5 `Advance`s -/
+example : advsL (parseItems [40, 77, 2, 3]).out = 5 ∧ (parseItems [40, 77, 2, 3]).pos = 4 := by decide +kernel
+
 theorem body_fileItems : ∃ D, body .fileItems = .ifEof .skip (.seq D (.call .fileItems)) := ⟨_, rfl⟩
 theorem body_file : ∃ A B, body .file = .node K_FILE (.seq A (.seq B (.call .fileItems))) := ⟨_, _, rfl⟩
 
